@@ -70,13 +70,13 @@ class Ctx:
         return os.path.join(self.wd, name)
 
     # ---- model level ------------------------------------------------------------------------
-    def cfg(self, name, consts, invariants, view=True, extra=""):
+    def cfg(self, name, consts, invariants, view=True, extra="", init="Init", nxt="Next"):
         p = self.path(name + ".cfg")
         with open(p, "w") as f:
             f.write("CONSTANTS\n")
             for k, v in consts.items():
                 f.write(f"  {k} = {v}\n")
-            f.write("INIT Init\nNEXT Next\n")
+            f.write(f"INIT {init}\nNEXT {nxt}\n")
             if view:
                 f.write("VIEW View\n")
             if invariants:
@@ -84,8 +84,8 @@ class Ctx:
             f.write("CHECK_DEADLOCK FALSE\n" + extra)
         return p
 
-    def model(self, name, module, consts, invariants, workers=6, want_output=False, timeout=3600, view=True):
-        cfg = self.cfg(name, consts, invariants, view=view)
+    def model(self, name, module, consts, invariants, workers=6, want_output=False, timeout=3600, view=True, init="Init", nxt="Next"):
+        cfg = self.cfg(name, consts, invariants, view=view, init=init, nxt=nxt)
         r = tlc_model(module, cfg, self.path("meta-" + name), workers=workers, want_output=want_output, timeout=timeout)
         r["name"] = name
         r["consts"] = consts
@@ -377,6 +377,65 @@ def random_jobs(ctx, colls, nseeds, params, flags=(), tag=""):
     return futs
 
 
+# ---- one-step ("inductive") models: every valid red-black tree up to a size as a start state -------
+def rb_tree_count(n):
+    """number of red-black trees with n nodes (root red or black), counted independently of the
+    specification: the cross-check of RBShapes.tla's enumeration"""
+    from functools import lru_cache
+
+    @lru_cache(None)
+    def cnt(n, h, c):
+        hh = h - 1 if c == 0 else h
+        if n == 0 or hh < 0:
+            return 0
+        return sum(sub(nl, hh, c) * sub(n - 1 - nl, hh, c) for nl in range(n))
+
+    @lru_cache(None)
+    def sub(n, h, pc):
+        if n == 0:
+            return 1 if h == 0 else 0
+        return cnt(n, h, 0) + (cnt(n, h, 1) if pc == 0 else 0)
+
+    return 1 if n == 0 else sum(cnt(n, h, c) for h in range(0, 8) for c in (0, 1))
+
+
+IND_ORD_INV = ["IndStructure", "IndQueries", "EmitState"]
+
+
+def ind_ord_consts(maxn, minn=0, emit=False):
+    return {"Keys": keyset(2 * maxn + 1), "Cap0": 0, "Writes": "TRUE", "AfterMode": '"fixed"', "Emit": "TRUE" if emit else "FALSE",
+            "MaxN": maxn, "MinN": minn}
+
+
+def ind_ord_model(ctx, maxn, emit=False):
+    """IndOrd: one step of every kind from every valid tree with <= maxn nodes; returns the start states"""
+    r = ctx.model(f"indord-n{maxn}", "IndOrd", ind_ord_consts(maxn, emit=emit), IND_ORD_INV, workers=8, want_output=emit,
+                  view=False, init="IndInit", nxt="IndNext")
+    # 4 arena situations per shape, two of which coincide while 2n <= 8
+    want = sum(rb_tree_count(n) * (4 if 2 * n > 8 else 3) for n in range(0, maxn + 1))
+    states = []
+    if emit:
+        states = [json.loads(ln)[6:] for ln in r["out"].splitlines() if ln.startswith('"STATE ')]
+        del r["out"]
+        if len(states) != want:
+            raise ToolError(f"IndOrd n<={maxn}: TLC printed {len(states)} start states, the independent count of red-black trees gives {want}")
+    r["consts"] = dict(r["consts"], start_states=want, note="every red-black tree with <= MaxN nodes x arena situations; one step of every kind")
+    ctx.notes.append(f"indord-n{maxn}: {want} start states = all red-black trees with <= {maxn} nodes (count cross-checked) x arena situations (full / free slots / free list at capacity)")
+    return states
+
+
+def ord_ind_jobs(ctx, colls, maxn, shards, limit=None, handles=0, max_events=600000):
+    """spec -> code: every start state of IndOrd is loaded into the real tree (verif_load hook) and one
+    step of every kind is made from it; code -> spec: TLC validates the recorded steps"""
+    states = ind_ord_model(ctx, maxn, emit=True)
+    futs = []
+    for coll in colls:
+        files = write_shards(ctx, f"ind-{coll}-n{maxn}", states, shards, ctx.seed, limit)
+        for i, pf in enumerate(files):
+            futs.append(ctx.submit(f"ind-{coll}-n{maxn}-{i}", coll, "ind", {"states": pf, "handles": handles, "max_events": max_events}))
+    return futs
+
+
 ASSUME_COMMON = [
     "TLC decides the property on the layer-1 model within the stated constants; the code is tied to the specification by the validated traces only",
     "the harness build (opt-level 2, debug assertions, overflow checks, std unsafe-precondition checks) behaves like the release build except that out-of-contract indexing aborts instead of being silent",
@@ -418,6 +477,11 @@ ORD_TREES_MAP = ["maptree-i32", "maptree-str"]
 ORD_TREES_SET = ["settree-i32", "settree-str", "settree-plain"]
 ORD_LISTS = ["maplist-i32", "maplist-str", "setlist-i32", "setlist-str"]
 
+IND_RULE = ("; one-step model IndOrd / IndKey: every red-black tree up to MaxN nodes (all shapes, root red or black, reachable or not; "
+            "the count is cross-checked) in several arena situations is a start state, one step of every kind is taken from it and the "
+            "invariants are checked on the successor; every start state is also loaded into the real tree (verif_load hook), the same "
+            "steps are made there and validated by TLC (in the quick tier a seeded sample of the start states)")
+IND_ASSUME = "one-step runs start from states constructed through the cfg(itree_verif) verif_load hook, which writes the arena fields verbatim"
 COVER_RULE = ("model: every history over the key universe (fixpoint over canonical arena states, unbounded length); conformance: "
               "TLC-generated cover paths replayed on the real collection with every in-contract call of the alphabet fanned out "
               "from each covered state, plus seeded random histories; distinct_nontrivial counts distinct (canonical physical "
@@ -437,8 +501,11 @@ def plan_ord(ctx, colls):
         futs += ord_cover_jobs(ctx, colls, 4, [1, 9], 2, writes=True)
     futs += random_jobs(ctx, colls, 2 if q else 8, {"keys": 10, "steps": 2500 if q else 12000, "seglen": 90})
     futs += random_jobs(ctx, colls, 1 if q else 3, {"keys": 40, "steps": 1200 if q else 6000, "seglen": 400}, tag="-wide")
+    # one step of every kind from every valid red-black tree (not only the reachable ones of a small universe)
+    futs += ord_ind_jobs(ctx, colls, 8 if q else 11, 2 if q else 4, limit=(200 // len(colls)) if q else 4000,
+                         handles=1 if ctx.pid in ("C17", "C08") else 0)
     ctx.collect(futs)
-    return ctx.finish(COVER_RULE, ASSUME_COMMON)
+    return ctx.finish(COVER_RULE + IND_RULE, ASSUME_COMMON + [IND_ASSUME])
 
 
 def plan_c04(ctx):
@@ -490,6 +557,8 @@ def plan_structure(ctx):
     futs = ord_cover_jobs(ctx, ["maptree-i32", "settree-i32"], 5 if q else 6, [0] if q else [0, 9], 2 if q else 4,
                           limit=160 if q else None)
     futs += key_cover_jobs(ctx, ["keytree"], 3, 3, [0] if q else [0, 9], 2 if q else 4, export=0, limit=200 if q else None)
+    futs += ord_ind_jobs(ctx, ["maptree-i32", "settree-str"] if q else ["maptree-i32", "maptree-str", "settree-i32", "settree-str"],
+                         8 if q else 11, 2 if q else 4, limit=100 if q else 4000)
     trees = ["maptree-i32", "settree-str", "keytree"] if q else ["maptree-i32", "maptree-str", "settree-i32", "settree-str", "keytree"]
     for coll in trees:
         base = {"keys": 12, "steps": 2000 if q else 10000, "seglen": 150}
@@ -525,8 +594,8 @@ def plan_structure(ctx):
         cov.update({"key:" + k: v for k, v in operator_coverage("MCKey", ctx.cfg("cov-key", key_consts(3, 3), KEY_INV), ctx.path("meta-cov-key")).items()})
         ctx.notes.append({"operator_evaluations": {k: v for k, v in cov.items() if k.split(".")[-1] in want}})
     ctx.collect(futs)
-    return ctx.finish(COVER_RULE + "; structure predicates (WellFormed / PoolOK / growth bound) are evaluated by TLC on the "
-                      "snapshot of every logged state", ASSUME_COMMON)
+    return ctx.finish(COVER_RULE + IND_RULE + "; structure predicates (WellFormed / PoolOK / growth bound) are evaluated by TLC on the "
+                      "snapshot of every logged state", ASSUME_COMMON + [IND_ASSUME])
 
 
 def plan_lists(ctx):
